@@ -133,6 +133,7 @@ type lcState struct {
 	rseq     map[uint32]uint16
 	rtcpSeen int
 	blocked  int
+	exact    bool
 }
 
 func (s *lcState) call(o *Out, f func()) {
@@ -170,6 +171,13 @@ func (s *lcState) flush(o *Out, tag string) {
 	s.emitted = map[uint32]bool{}
 	s.mu.Unlock()
 	sort.Slice(ss, func(i, j int) bool { return ss[i] < ss[j] })
+	if !s.exact && tag != "afterclose" {
+		ss = nil // data-dependent emitters: only emissions after Close are compared
+	}
+	if !s.exact && tag == "afterclose" && len(ss) > 0 {
+		o.P("%s LATE-EMISSION %s", tag, joinInts(ss))
+		return
+	}
 	o.P("%s %s", tag, joinInts(ss))
 }
 
@@ -204,6 +212,10 @@ func lcRun(t *testing.T, ops []string, o *Out) {
 					if err != nil {
 						o.P("err:new")
 						return
+					}
+					switch a["kind"] {
+					case "rr", "sr", "pli", "nackgen":
+						s.exact = true
 					}
 					for _, k := range parseInts(a["failat"]) {
 						s.failAt[k] = true
@@ -305,6 +317,7 @@ func lcRun(t *testing.T, ops []string, o *Out) {
 				case "close":
 					s.call(o, func() { _ = s.ic.Close() })
 					closed = true
+				case "end":
 				default:
 					o.P("bad-op")
 				}
@@ -391,6 +404,7 @@ func init() {
 					ops = append(ops, op)
 				}
 			}
+			ops = append(ops, "end")
 			return Case{Class: fmt.Sprintf("%s-t%d", kind, templ), Ops: ops}
 		},
 		Run: lcRun,
